@@ -1,6 +1,6 @@
 (* C19/Props.v — property theorems only (proofs live in C19/Proofs.v). *)
 From Coq Require Import List String Bool ZArith.
-From Exo Require Import Base.IntDec Base.Util C19.Model C19.MultiTx C19.Multi C19.Proofs C19.ProofsMulti C19.BaseFee C19.ProofsBaseFee.
+From Exo Require Import Base.IntDec Base.Util C19.Model C19.MultiTx C19.Multi C19.Proofs C19.ProofsMulti C19.BaseFee C19.ProofsBaseFee C19.ProofsAgree.
 Import ListNotations.
 Local Open Scope Z_scope.
 
@@ -143,28 +143,22 @@ Print Assumptions C19_block_gas.
 
 (* ---- "costs nothing", read for the block as well (finding F2) ---- *)
 
-(* refused by price / value / gas-limit / nonce / block-full checks: the block gas meter is untouched *)
-Theorem C19_rejected_block_gas_partial : forall e s t o why,
-  snd (deliver e s t o) = Rejected why -> why <> 2 -> why <> 10 ->
+(* refused by any admission check the property names (block gas left, price, balance, value, gas limit, nonce): the block
+   gas meter is untouched. Reason 2 (a malformed message refused by baseapp's validateBasicTxMsgs before the ante handler)
+   is the only refusal that moves it, by the oracle input o_ctxgas (cosmos-sdk behaviour, observation R3). *)
+Theorem C19_rejected_block_gas : forall e s t o why,
+  snd (deliver e s t o) = Rejected why -> why <> 2 ->
   s_bgas (fst (deliver e s t o)) = s_bgas s.
 Proof. exact rejected_block_gas. Qed.
-Print Assumptions C19_rejected_block_gas_partial.
+Print Assumptions C19_rejected_block_gas.
 
-Definition C19_rejected_block_gas_full : Prop := forall e s t o why,
-  snd (deliver e s t o) = Rejected why -> why <> 2 -> s_bgas (fst (deliver e s t o)) = s_bgas s.
-
-(* as found: refused because the balance does not cover the fee (reason 10, the recovered ante panic), yet 48103 gas of the
-   block are gone; the directed first case of suite evmfee replays this on the real code. Repaired by
-   repo_patches/fix-evm-ante-insufficient-fee-balance-panic.patch (ResponseDeliverTx.GasUsed, the oracle input, is then 0). *)
-Theorem C19_rejected_block_gas_refuted : exists e s t o why,
-  snd (deliver e s t o) = Rejected why /\ why <> 2 /\ s_bgas (fst (deliver e s t o)) <> s_bgas s.
-Proof.
-  exists (mkEnv 1000 0 (P / 2) 100000),
-         (mkSt [("a"%string, 5000)] [("a"%string, Some 0)] 0 0 "w"),
-         (mkTx 0 "a" "b" 0 50000 2000 2000 2000 0 21000 false), (mkOr 0 0 false "w" 48103), 10.
-  vm_compute. repeat split; discriminate.
-Qed.
-Print Assumptions C19_rejected_block_gas_refuted.
+(* regression scenario of finding F2 (fixed 07834a8): balance below the fee is refused with reason 10 and the block gas
+   meter stays where it was, whatever ResponseDeliverTx.GasUsed says *)
+Example ex_regress_F2 :
+  deliver (mkEnv 1000 0 (P / 2) 100000) (mkSt [("a"%string, 5000)] [("a"%string, Some 0)] 0 0 "w")
+          (mkTx 0 "a" "b" 0 50000 2000 2000 2000 0 21000 false) (mkOr 0 0 false "w" 48103) =
+  (mkSt [("a"%string, 5000)] [("a"%string, Some 0)] 0 0 "w", Rejected 10).
+Proof. vm_compute. reflexivity. Qed.
 
 (* ---- several Ethereum messages in ONE cosmos transaction: the nonce clause ---- *)
 
@@ -232,6 +226,52 @@ Theorem C19_multi_collector : forall e txs s,
   s_coll (run_multi e s txs) = s_coll s + zsum (map (mfee_of e) (mtrace e s txs)).
 Proof. exact run_multi_collector. Qed.
 Print Assumptions C19_multi_collector.
+
+(* dropped message branch (error return of any message, block gas overflow): every other store unchanged - including what
+   earlier messages of the same transaction wrote through precompiles -, no value moved, every message pays its gas limit *)
+Theorem C19_multi_dropped_no_effect : forall e s cg ops,
+  env_ok e = true -> mops_ok ops = true -> state_ok s -> 0 <= cg ->
+  let s' := fst (deliver_multi e s cg ops) in
+  let r := snd (deliver_multi e s cg ops) in
+  mincluded r = true -> mouts r = None ->
+  s_world s' = s_world s /\
+  s_coll s' = s_coll s + zsum (map (fees_of e) (map fst ops)) /\
+  (forall a, aget 0 (s_bal s') a = aget 0 (s_bal s) a - zsum (map (fee_from e a) (map fst ops))).
+Proof. exact multi_dropped_no_effect. Qed.
+Print Assumptions C19_multi_dropped_no_effect.
+
+(* ---- the single-message model IS the one-element case of the multi-message model (proved, no hypotheses beyond
+   "RefundGas did not fail", which C19_accounting shows unreachable) ---- *)
+Theorem C19_single_is_multi : forall e s t o,
+  snd (deliver e s t o) <> RefundFail ->
+  deliver_multi e s (o_ctxgas o) [(t, o)] = (fst (deliver e s t o), lift (snd (deliver e s t o))).
+Proof. exact deliver_multi_single. Qed.
+Print Assumptions C19_single_is_multi.
+
+Theorem C19_single_is_multi_ok : forall e s t o,
+  env_ok e = true -> oracle_ok t o = true -> state_ok s ->
+  deliver_multi e s (o_ctxgas o) [(t, o)] = (fst (deliver e s t o), lift (snd (deliver e s t o))).
+Proof. exact deliver_as_multi. Qed.
+Print Assumptions C19_single_is_multi_ok.
+
+(* a block of single-message transactions = the same block of one-element multi-message transactions *)
+Theorem C19_block_is_multi : forall e ops s,
+  env_ok e = true -> oracles_ok ops = true -> state_ok s ->
+  run_multi e s (map wrap ops) = run e s ops.
+Proof. exact run_as_multi. Qed.
+Print Assumptions C19_block_is_multi.
+
+(* hence the single-message block theorems are corollaries of the multi-message ones (shown for two of them) *)
+Theorem C19_solvent_via_multi : forall e ops s,
+  env_ok e = true -> oracles_ok ops = true -> state_ok s -> state_ok (run e s ops).
+Proof. exact single_solvent_from_multi. Qed.
+Print Assumptions C19_solvent_via_multi.
+
+Theorem C19_zero_sum_via_multi : forall e L ops s,
+  env_ok e = true -> oracles_ok ops = true -> state_ok s -> NoDup L -> ops_within L ops ->
+  total L (run e s ops) = total L s.
+Proof. exact single_zero_sum_from_multi. Qed.
+Print Assumptions C19_zero_sum_via_multi.
 
 (* ---- the fee market between blocks (C19/BaseFee.v): sequences of BLOCKS ---- *)
 
